@@ -43,6 +43,68 @@ func isLoggerCall(c ssa.CallInstruction) bool {
 	return n != nil && n.Obj().Pkg() != nil && strings.Contains(n.Obj().Pkg().Path(), "btclog")
 }
 
+// isLogPlumbing: the instruction is a logger call or only exists to feed one (the load of the
+// logger, the argument array of the variadic call and what is stored into it).
+func isLogPlumbing(in ssa.Instruction) bool {
+	if ci, ok := in.(ssa.CallInstruction); ok {
+		return isLoggerCall(ci)
+	}
+	if st, ok := in.(*ssa.Store); ok {
+		if ia, ok := st.Addr.(*ssa.IndexAddr); ok {
+			return isLogPlumbing(ia)
+		}
+		return false
+	}
+	v, ok := in.(ssa.Value)
+	if !ok {
+		return false
+	}
+	switch in.(type) {
+	case *ssa.UnOp, *ssa.Alloc, *ssa.IndexAddr, *ssa.MakeInterface, *ssa.Slice, *ssa.ChangeType, *ssa.Convert, *ssa.FieldAddr:
+	default:
+		return false
+	}
+	refs := v.Referrers()
+	if refs == nil || len(*refs) == 0 {
+		return false
+	}
+	var feeds func(v ssa.Value, d int) bool
+	feeds = func(v ssa.Value, d int) bool {
+		refs := v.Referrers()
+		if refs == nil || d > 6 {
+			return false
+		}
+		n := 0
+		for _, r := range *refs {
+			switch r := r.(type) {
+			case *ssa.DebugRef:
+				continue
+			case ssa.CallInstruction:
+				if !isLoggerCall(r) {
+					return false
+				}
+			case *ssa.Store:
+				if r.Val == v {
+					ia, ok := r.Addr.(*ssa.IndexAddr)
+					if !ok || !feeds(ia.X, d+1) {
+						return false
+					}
+				}
+				// a store INTO v (v is the address): fine
+			case *ssa.IndexAddr, *ssa.Slice, *ssa.MakeInterface, *ssa.ChangeType, *ssa.Convert:
+				if !feeds(r.(ssa.Value), d+1) {
+					return false
+				}
+			default:
+				return false
+			}
+			n++
+		}
+		return n > 0
+	}
+	return feeds(v, 0)
+}
+
 // fieldOfValue: v is load(x.F) for some x; returns F.
 func fieldOfValue(v ssa.Value) *types.Var { return chanField(v) }
 
